@@ -1,6 +1,6 @@
 (* C09 correspondence: how the observed answers of acl.Compile / CompiledRuleSet.Match /
    aclEngine.handle are compared with the model.  Used by the generated run/C09/cases_*.v files. *)
-From Hy Require Import lib.Harness model.C09_ACL proof.C09_ACL model.C09_Conc.
+From Hy Require Import lib.Harness model.C09_ACL proof.C09_ACL model.C09_Conc model.C09_IPString model.C09_Text.
 From Coq Require Import ZArith.
 Local Open Scope N_scope.
 
@@ -25,6 +25,14 @@ Inductive case :=
    (query, answer) pair that was observed. *)
 | CConcAny (obs : list (str * N)) (rules : list trule) (csize : Z) (hosts : list host)
         (qs : list (nat * N * N)) (pool : list (N * list byte)) (exp : list nat)
+(* a rule file given to acl.ParseTextRules: observed rules with their line numbers, or None and the
+   InvalidSyntaxError (LineNum, Line) *)
+| CFile (text : str) (exp : option (list (nat * trule))) (eline : nat) (etext : str)
+(* net.IP.String() of addresses of any length and HostInfo.String() of hosts *)
+| CIpStr (addrs : list ip) (exp : list str) (hosts : list host) (hexp : list str)
+(* engine built by NewACLEngineFromString from the TEXT of a rule file (ParseTextRules ; Compile), then as CEng *)
+| CEngT (entries : list (str * N)) (text : str) (hosts : list host)
+        (qs : list (nat * N * N)) (pool : list (N * N * list byte * list byte)) (exp : option (list nat))
 with hev := HStart (q : nat * N * N) | HDone (i : nat).
 
 Definition mkq (hosts : list host) (q : nat * N * N) : query :=
@@ -66,6 +74,11 @@ Definition ans_fresh (rs : list rule) (a : option (query * result)) : bool :=
   | None => false
   end.
 
+Definition trule_eqb (a b : trule) : bool :=
+  beqb (t_ob a) (t_ob b) && beqb (t_addr a) (t_addr b) && beqb (t_pp a) (t_pp b) && beqb (t_hijack a) (t_hijack b).
+
+Definition lrule_eqb (a b : nat * trule) : bool := Nat.eqb (fst a) (fst b) && trule_eqb (snd a) (snd b).
+
 Definition DIRECT : N := 1000.
 Definition REJECT : N := 1001.
 
@@ -79,7 +92,7 @@ Definition check (c : case) : bool :=
               let e := map (fun i => nth i pool (77777, [])) ei in
               let qq := map (mkq hosts) qs in
               all2 res_eqb (map (fresh rs) qq) e &&
-              all2 res_eqb (run ip_str_hex (pol_fifo (Z.to_nat csize)) rs qq) e
+              all2 res_eqb (run ip_string (pol_fifo (Z.to_nat csize)) rs qq) e
           | None => false
           end
       | Err EInvalid => match exp with None => true | Some _ => false end
@@ -89,7 +102,7 @@ Definition check (c : case) : bool :=
       match compile obs rules csize with
       | Ok rs =>
           let e := map (fun i => nth i pool (77777, [])) exp in
-          let a := answers (snd (conc_run ip_str_hex (pol_fifo (Z.to_nat csize) 0) rs (to_cevs hosts 0 evs))) in
+          let a := answers (snd (conc_run ip_string (pol_fifo (Z.to_nat csize) 0) rs (to_cevs hosts 0 evs))) in
           all2 ans_eqb a e && forallb (ans_fresh rs) a
       | _ => false
       end
@@ -98,6 +111,29 @@ Definition check (c : case) : bool :=
       | Ok rs =>
           let e := map (fun i => nth i pool (77777, [])) exp in
           all2 res_eqb (map (fresh rs) (map (mkq hosts) qs)) e
+      | _ => false
+      end
+  | CFile text exp eline etext =>
+      match parse_text text, exp with
+      | PRules lrs, Some e => all2 lrule_eqb lrs e
+      | PSyntax n c, None => Nat.eqb n eline && beqb c etext
+      | _, _ => false
+      end
+  | CIpStr addrs exp hosts hexp =>
+      all2 beqb (map ip_string addrs) exp && all2 beqb (map (host_string ip_string) hosts) hexp
+  | CEngT entries text hosts qs pool exp =>
+      let m := outbounds_to_map entries DIRECT REJECT in
+      match compile_text m text (Z.of_N AclCacheSize) with
+      | Ok rs =>
+          match exp, map_get m s_default with
+          | Some ei, Some d =>
+              let e := map (fun i => nth i pool (77777, 0, [], [])) ei in
+              all2 eng_eqb
+                   (map (fun q => let h := nth (fst (fst q)) hosts (mkHost [] [] []) in
+                                  engine_handle rs d (mkReq (h_name h) (snd q) (Some (h_v4 h, h_v6 h))) (snd (fst q))) qs) e
+          | _, _ => false
+          end
+      | Err EInvalid => match exp with None => true | Some _ => false end
       | _ => false
       end
   | CEng entries rules hosts qs pool exp =>
